@@ -231,7 +231,8 @@ where
             self.add_state(-carry);
             advance_block(&mut self.states[last_block], &peq[last_block], a, carry);
         } else {
-            while last_block > 0 && self.states[last_block].dist >= max_dist + w {
+            // `max_dist` may be `usize::MAX` (`distance()`, `find_best_end()`), hence saturate.
+            while last_block > 0 && self.states[last_block].dist >= max_dist.saturating_add(w) {
                 last_block -= 1;
             }
             self.states.truncate(last_block + 1);
